@@ -15,6 +15,12 @@ streams
           accented / Greek / Cyrillic initials, multi-character transliterations, sub-entries, formats) parsed by the real
           code; the request line is the sequence of transliterated upper-cased first characters in the order of the sorted
           index; observation = (title, id, number of entries) per group; oracle = ids pairwise distinct.
+  cap   : Float.digest: figures/tables whose captions (with label) are written directly or nested in boxes, font commands
+          and environments up to depth 3; observation = number of captions Float.digest sees in allChildNodes and the id
+          the float template prints (the caption's id when there is exactly one caption).
+  reg   : link targets the parser registers (userdata['index'], userdata['footnotes']) for constructs standing in every
+          context of the document generator (boxes, font commands, environments, directly after \\item, before the first
+          \\item, in \\item[..], in table cells): every registered object must be a node of the document tree.
   nav   : the navigation entries the parser registers (Macro.setLinkType -> userdata['links'], read by SectionUtils.links):
           documents made of \\printindex, theindex environments (the form makeindex writes), thebibliography environments and
           sections in random order, parsed by the real code; observation per key = which construct registered the entry
@@ -45,7 +51,7 @@ LEVEL_TEXT = ('Lean 4 theorems over a line-by-line model of Macro.id/idgen, Rend
               'Renderable.__str__ (Model/Render.lean) writes the node\'s own template output. Footnotes: the mark of a footnote is printed in the file of its own URL, its text by the layout '
               'of the section SectionUtils.footnotes finds by walking currentSection until a section has a filename; footnote_mark_lands proves both are the same produced file whenever only '
               'sections create files, footnote_mark_lands_of_document for every filename template (a template naming a single file forces level -10: effSplit), every split level below '
-              'ENDSECTIONS_LEVEL and every document (prepared_navOK). up_and_breadcrumb_links_land: the up/parent entry and every breadcrumb of SectionUtils.links is the URL of an ancestor node computed with that ancestor\'s own chain, so it lands. Navigation entries: nav_entries_are_document_nodes proves that whatever commands, \\begin and \\end instances of link-type macros '
+              'ENDSECTIONS_LEVEL and every document (prepared_navOK). up_and_breadcrumb_links_land: the up/parent entry and every breadcrumb of SectionUtils.links is the URL of an ancestor node computed with that ancestor\'s own chain, so it lands. Floats: float_carries_caption_label proves that a float with exactly one caption below it, nested at any depth in boxes, font commands or environments, prints that caption\'s id (model of Float.digest over allChildNodes). Navigation entries: nav_entries_are_document_nodes proves that whatever commands, \\begin and \\end instances of link-type macros '
               'the parser invokes, every entry of userdata[links] (links.index.url of the layouts) is a node of the document, never the throw-away \\end instance. Index page: index_group_ids_unique proves that the group headings (one navigation link #id and one heading id per group) have '
               'pairwise distinct ids for every sequence of entries in any order and any transliteration (model of IndexUtils.groups, Model/UrlsIndex.lean), index_every_entry_grouped that no entry is lost. The model is tied to the real code by differential execution of abstract trees through the real '
               'Renderer with stub templates; which templates emit id=/href= is carried by the document stream doc14 '
@@ -62,7 +68,7 @@ ASSUMPTIONS = ['labels pairwise distinct and not of the form a<10 digits> (NF-do
 RULE = ('url: random render trees (<= 40 nodes, depth <= 6; 1% with 80-200 nodes) with footnotes in paragraphs and environments, x filename template (default, single-name, other wildcard templates) '
         'x labels (25% of the trees draw labels that collide as file names: S:a/S.a/S-a/S!a, index, sect0001, ...), 85% well-formed (levels nest, labels distinct, document root), 15% malformed; '
         'non-trivial = well-formed, at least two files, at least one node inside a file with a fragment URL, and a toc or reference present; '
-        'idx: 1-10 random index keys per case from a 33-key alphabet covering every group kind; non-trivial = at least two groups; doc14: generated LaTeX documents (index/footnote/cite commands inside running text or as the sole content of a paragraph; index keys with accented/Greek initials next to plain ones; 30% with section labels that collide as file names or equal names the template hands out; index keys of every group: letters, digits, symbols, underscore, key@display, |textbf, |see) x configuration incl. filename template; non-trivial = more than one output file and at least one cross-file link; distinct = distinct request line / document+configuration')
+        'idx: 1-10 random index keys per case from a 33-key alphabet covering every group kind; non-trivial = at least two groups; cap: 0-2 captions per float, each nested in 0-3 of 8 wrappers; reg: 1-5 index entries / footnotes in one of 17 contexts each; doc14: generated LaTeX documents (index/footnote/cite/ref constructs inside running text, as the sole content of a paragraph, or nested up to two deep in boxes, font commands, environments, list items (directly after \\item, before the first \\item, in \\item[..]) and table cells; float captions set directly or inside \\parbox/\\centerline/center/minipage/\\fbox; equations, theorems and lists inside center/quote/minipage/list items; index keys with accented/Greek initials next to plain ones; 30% with section labels that collide as file names or equal names the template hands out; index keys of every group: letters, digits, symbols, underscore, key@display, |textbf, |see) x configuration incl. filename template; non-trivial = more than one output file and at least one cross-file link; distinct = distinct request line / document+configuration')
 EXHAUSTIVE = {}
 CASE_TIMEOUT = 30
 GENERATED = []
@@ -322,6 +328,101 @@ def run_nav(case):
     return ','.join(out)
 
 
+# ---------------------------------------------------------------- reg stream (link targets registered by the parser)
+
+def reg_contexts():
+    return c14doc.W_INLINE + c14doc.W_INDEX_ONLY
+
+
+def gen_reg_case(rng, origin='gen'):
+    ctxs = reg_contexts()
+    toks = []
+    for _ in range(rng.randint(1, 5)):
+        if rng.random() < 0.65:
+            toks.append('i%d' % rng.randrange(len(ctxs)))
+        else:
+            toks.append('f%d' % rng.randrange(len(c14doc.W_INLINE)))
+    return Case('reg', ' '.join(toks), {'cls': rng.choice(['article', 'book'])}, origin)
+
+
+def reg_source(case):
+    ctxs = reg_contexts()
+    body = []
+    for k, t in enumerate(case.line.split()):
+        w = ctxs[int(t[1:])]
+        body.append(w % ('\\index{key%d}' % k if t[0] == 'i' else 'Word\\footnote{note %d}' % k))
+    return ('\\documentclass{%s}\\usepackage{makeidx}\\makeindex\\begin{document}\\section{A}\n%s\n\\printindex\\end{document}' %
+            (case.meta.get('cls', 'article'), '\n\n'.join(body)))
+
+
+def run_reg(case):
+    """parse; every object registered as a link target must be reachable from the document node (through child
+    nodes and argument fragments): only those are rendered"""
+    from plasTeX.TeX import TeX, TeXDocument
+    from plasTeX.DOM import Node
+    doc = TeXDocument()
+    tex = TeX(doc)
+    tex.input(reg_source(case))
+    tex.parse()
+    seen = set()
+    todo = [doc]
+    while todo:
+        n = todo.pop()
+        if id(n) in seen:
+            continue
+        seen.add(id(n))
+        todo.extend(getattr(n, 'childNodes', None) or [])
+        attrs = getattr(n, 'attributes', None)
+        if isinstance(attrs, dict):
+            for v in attrs.values():
+                if isinstance(v, Node):
+                    todo.append(v)
+                elif isinstance(v, (list, tuple)):
+                    todo.extend(x for x in v if isinstance(x, Node))
+    ix = [id(e.node) in seen for e in doc.userdata.get('index', [])]
+    fn = [id(f) in seen for f in doc.userdata.get('footnotes', [])]
+    return 'index=%d/%d,foot=%d/%d' % (sum(ix), len(ix), sum(fn), len(fn))
+
+
+# ---------------------------------------------------------------- cap stream (Float.digest: the caption carries the label)
+
+CAPWRAP = {'p': '\\parbox{4cm}{%s}', 'l': '\\centerline{%s}', 'b': '\\fbox{%s}', 't': '\\textbf{%s}', 'x': '\\mbox{%s}',
+           'c': '\\begin{center}%s\\end{center}', 'm': '\\begin{minipage}{4cm}%s\\end{minipage}', 'q': '\\begin{quote}%s\\end{quote}'}
+
+
+def gen_cap_case(rng, origin='gen'):
+    toks = []
+    for _ in range(rng.choice([1, 1, 1, 1, 2, 0])):
+        depth = rng.choice([0, 1, 1, 2, 3])
+        toks.append('.'.join(rng.choice('plbtxcmq') for _ in range(depth)) or 'n')
+    return Case('cap', ' '.join(toks), {'float': rng.choice(['figure', 'table'])}, origin)
+
+
+def cap_source(case):
+    body = []
+    for k, t in enumerate(case.line.split()):
+        s = '\\caption{Caption %d}\\label{c%d}' % (k, k)
+        for w in reversed([x for x in t.split('.') if x and x != 'n']):
+            s = CAPWRAP[w] % s
+        body.append(s)
+    fl = case.meta.get('float', 'figure')
+    return '\\documentclass{article}\\begin{document}\\section{A}\\begin{%s}Picture %s\\end{%s}\\end{document}' % (fl, ' '.join(body), fl)
+
+
+def run_cap(case):
+    """parse; what Float.digest saw (number of captions in allChildNodes) and the id its template will print"""
+    from plasTeX.TeX import TeX, TeXDocument
+    from plasTeX.Base.LaTeX.Floats import Caption
+    doc = TeXDocument()
+    tex = TeX(doc)
+    tex.input(cap_source(case))
+    tex.parse()
+    fl = doc.getElementsByTagName(case.meta.get('float', 'figure'))[0]
+    n = len([x for x in fl.allChildNodes if isinstance(x, Caption)])
+    title = getattr(fl, 'title', None)
+    return 'caps=%d,title=%s' % (n, title.id if title is not None and isinstance(title, Caption) else '-')
+
+
 def generate(ctx):
     rng = ctx.rng
     n = 2000 if ctx.tier == 'quick' else 24000
@@ -335,6 +436,10 @@ def generate(ctx):
         yield gen_post_case(rng)
     for _ in range(n // 20):
         yield gen_nav_case(rng)
+    for _ in range(n // 10):
+        yield gen_reg_case(rng)
+    for _ in range(n // 10):
+        yield gen_cap_case(rng)
 
 
 def corpus():
@@ -609,6 +714,16 @@ _FIRST = [None]
 
 
 def impl(case, aux):
+    if case.stream == 'cap':
+        try:
+            return run_cap(case)
+        except Exception as e:
+            return canon_exc(e)
+    if case.stream == 'reg':
+        try:
+            return run_reg(case)
+        except Exception as e:
+            return canon_exc(e)
     if case.stream == 'nav':
         try:
             return run_nav(case)
@@ -704,6 +819,18 @@ def oracle(obs, base):
 
 def judge(o):
     o.corr_ok = (o.impl == o.model)
+    if o.case.stream == 'cap':
+        # a float with exactly one caption must print that caption's id (the label a \\ref links to)
+        one = len(o.case.line.split()) == 1
+        o.prop_ok = o.spec == 'ok' and (not one or o.impl.endswith('title=c0'))
+        if not o.prop_ok:
+            o.note = 'the float does not carry the id of its only caption; source: ' + cap_source(o.case)
+        return
+    if o.case.stream == 'reg':
+        o.prop_ok = o.corr_ok          # the model is the requirement: registered = attached, nothing lost
+        if not o.prop_ok:
+            o.note = 'a registered link target (index entry / footnote) is not a node of the document; source: ' + reg_source(o.case)[:400]
+        return
     if o.case.stream == 'nav':
         o.prop_ok = 'detached' not in o.impl and not o.impl.startswith('err:') and o.spec == 'ok'
         if not o.prop_ok:
@@ -740,12 +867,47 @@ def nontrivial(o):
         return 'A=' in o.case.line and 'P' in o.case.line.split()
     if o.case.stream == 'nav':
         return 'tree' in o.impl
+    if o.case.stream == 'reg':
+        return True
+    if o.case.stream == 'cap':
+        return len(o.case.line.split()) == 1 and o.case.line != 'n'
     p = parse_obs(o.impl)
     return p['F'].count('=') >= 2 and '#' in p['U'] and (p['T'] != '' or '~' in p['R'])
 
 
 def shrink(ctx, o, evaluate):
     """drop subtrees / references while the failure persists"""
+    if o.case.stream == 'cap':
+        best, improved = o, True
+        while improved:
+            improved = False
+            toks = best.case.line.split()
+            cands = [toks[:i] + toks[i + 1:] for i in range(len(toks)) if len(toks) > 1]
+            for i, t in enumerate(toks):
+                ws = t.split('.')
+                if t != 'n':
+                    for j in range(len(ws)):
+                        cands.append(toks[:i] + ['.'.join(ws[:j] + ws[j + 1:]) or 'n'] + toks[i + 1:])
+            for c in cands:
+                r = evaluate([Case('cap', ' '.join(c), dict(best.case.meta), 'shrink')])[0]
+                if not r.prop_ok:
+                    best, improved = r, True
+                    break
+        return best
+    if o.case.stream not in ('url', 'reg', 'nav', 'post', 'idx'):
+        return o
+    if o.case.stream == 'reg':
+        best, improved = o, True
+        while improved:
+            improved = False
+            w = best.case.line.split()
+            for i in range(len(w)):
+                if len(w) > 1:
+                    r = evaluate([Case('reg', ' '.join(w[:i] + w[i + 1:]), dict(best.case.meta), 'shrink')])[0]
+                    if not r.prop_ok:
+                        best, improved = r, True
+                        break
+        return best
     if o.case.stream == 'nav':
         best, improved = o, True
         while improved:
@@ -829,7 +991,7 @@ def search(ctx, evaluate, corr_bad):
                                  {'kind': 'failing-input', 'outcome': s.to_json()})
     rng = _random.Random(ctx.seed + 7919)
     cases = ([gen_url_case(rng, 'search') for _ in range(4000)] + [gen_url_case(rng, 'search', big=True) for _ in range(400)] +
-             [gen_idx_case(rng, 'search') for _ in range(400)] + [gen_post_case(rng, 'search') for _ in range(2000)] + [gen_nav_case(rng, 'search') for _ in range(300)])
+             [gen_idx_case(rng, 'search') for _ in range(400)] + [gen_post_case(rng, 'search') for _ in range(2000)] + [gen_nav_case(rng, 'search') for _ in range(300)] + [gen_reg_case(rng, 'search') for _ in range(600)] + [gen_cap_case(rng, 'search') for _ in range(600)])
     bad = [o for o in evaluate(cases) if not o.prop_ok]
     if bad:
         o = shrink(ctx, bad[0], evaluate)
